@@ -256,9 +256,6 @@ def _convert_timestamp_to_tz_unaware(val):
     _val_to_numpy : Main conversion function that uses this internally
     """
     orig_type = val.dtype if hasattr(val, "dtype") else val.type
-    if isinstance(orig_type, pa.DataType):
-        # a raw pyarrow type cannot be used as a pandas dtype when the result is built
-        orig_type = pd.ArrowDtype(orig_type)
     if isinstance(val, (pd.Index, pd.Series)) and isinstance(val.values, np.ndarray):
         arr = val.values
     elif isinstance(val, np.ndarray):
